@@ -225,6 +225,26 @@ Definition is_word_unicode_look (l : look) : bool :=
 Definition contains_anchor_haystack (h : hir) : bool := has_look is_anchor_haystack h.
 Definition contains_word_unicode (h : hir) : bool := has_look is_word_unicode_look h.
 
+(* ---- config.rs: the fixed-strings shortcut ----
+   Config::is_fixed_strings / has_line_terminator: when no case folding is requested and every
+   pattern is a plain literal (or -F is given) without a terminator byte, ConfiguredHIR::new builds
+   the alternation of the literals directly and skips translation, the ban check and stripping. *)
+Definition is_meta_byte (b : N) : bool :=      (* regex_syntax::is_meta_character (all ASCII) *)
+  existsb (N.eqb b) [92; 46; 43; 42; 63; 40; 41; 124; 91; 93; 123; 125; 94; 36; 35; 38; 45; 126]%N.
+
+Definition has_line_terminator (lt : rterm) (lit : bytes) : bool := existsb (is_term_byte lt) lit.
+
+Definition is_fixed_strings (icase smart fixed : bool) (lt : option rterm) (pats : list bytes) : bool :=
+  if icase || smart then false
+  else if fixed then
+    match lt with Some t => negb (existsb (has_line_terminator t) pats) | None => true end
+  else
+    forallb (fun p => negb (existsb is_meta_byte p)
+                      && match lt with Some t => negb (has_line_terminator t p) | None => true end) pats.
+
+(* the HIR of the shortcut: Hir::alternation of Hir::literal(p) *)
+Definition fixed_hir (pats : list bytes) : hir := HAlt (map HLit pats).
+
 (* ---- config.rs ---- *)
 Record rconfig := {
   c_line_terminator : option rterm;   (* Config::line_terminator *)
